@@ -374,6 +374,9 @@ def s2_s3_update(ctx):
             extras_unknown = [q for q in parts[1:] if q not in extras_bad and not (qkey is not None and any(T.teq(s_, qkey) or (s_[0] == 'elem' and outer is not None and s_[-1] == outer.id) for s_ in T.subterms(q)))]
             if head_ok and not parts[1:]:
                 ctx.holds('C04.S5', 'the sort key is exactly the direction of the order (stable sort: sells first, submission order within a side)', sort_site)
+            elif (not head_ok or extras_bad) and any(s_[0] in ('havoc', 'lc') or (s_[0] == 'call' and (s_[1][0] == 'fn' or s_[1] == ('ext', 'APPLY'))) for s_ in T.subterms(got)):
+                # the key is computed by something the engine did not read to the end (a forking lambda body, a helper left as a call)
+                ctx.undecided('C04.S5', 'the sort key is exactly the direction of the order', sort_site, 'key=%s' % fmt(srt_key)[:120])
             elif not head_ok or extras_bad:
                 ctx.violation('C04.S5', 'the sort key is exactly the direction of the order (stable sort: sells first, submission order within a side)', sort_site,
                               'key=%s' % fmt(srt_key)[:160], key='C04.S5|key')
